@@ -115,6 +115,9 @@ class ShapeEval:
             a, b = self.ev(t[2]), self.ev(t[3])
             op = t[1]
             import operator
+            if op in ('in', 'notin') and isinstance(b, tuple) and b and b[0] == 'tup' and isinstance(a, int):
+                r = a in b[1]
+                return r if op == 'in' else not r
             OPS = {'<': operator.lt, '<=': operator.le, '>': operator.gt, '>=': operator.ge, '==': operator.eq,
                    '!=': operator.ne}
             if isinstance(a, tuple) and a and a[0] == 'tup' and isinstance(b, tuple) and b and b[0] == 'tup':
@@ -129,6 +132,9 @@ class ShapeEval:
                 if op in ('is', 'isnot'):
                     return (a is b) if op == 'is' else (a is not b)
                 return OPS[op](a, b)
+            if op in ('in', 'notin') and isinstance(b, tuple) and b and b[0] == 'tup' and isinstance(a, int):
+                r = a in b[1]
+                return r if op == 'in' else not r
             if op in ('is', 'isnot'):
                 r = a is b
                 return r if op == 'is' else not r
